@@ -384,6 +384,16 @@ func (x *fnCtx) applyContract(st *State, fr *Frame, in ssa.Instruction, con *Con
 			x.havocMatching(st, m)
 		}
 	}
+	// allocation set only grows across a call that may allocate
+	if !con.Pure {
+		old := x.heapArr(st, "$alloc", ArrSort(SInt, SBool))
+		nw := Fresh("H.$alloc", ArrSort(SInt, SBool))
+		bk := BVar("r", SInt)
+		st.assume(Forall([]*Term{bk}, Implies(Select(old, bk), Select(nw, bk)), Select(old, bk)))
+		st.assume(Not(Select(nw, IntLit(0))))
+		st.heap.m["$alloc"] = nw
+		x.writes["$alloc"] = true
+	}
 	// result
 	var res *Val
 	if rt != nil {
